@@ -436,6 +436,9 @@ def well_formed(cmds):
     regs = {}          # request -> pipe it is registered on
     stall = any(c.split()[0] in ("new", "cnew") and c.split()[2] in STALL_TYPES for c in cmds if len(c.split()) > 2)
     outof, kinds, released = {}, {}, False
+    nstall = 0
+    # (the directed scripts that chain two self-holding pipes on purpose give the second one an answering probe)
+    directed_ok = any(c.startswith("probeprov") for c in cmds)
     gone = set()       # handles a reaction (onev ... rel X) may have released: only the epilogue may name them again
     need_who = set()   # handles whose object id has not been announced yet (`who` right after the creation:
                        # without it the application's reference on the object is unknown to the trace)
@@ -463,6 +466,10 @@ def well_formed(cmds):
             kinds[t[1]] = t[2]
             if stall and t[1] != "zz" and t[2] not in FORWARDERS and t[2] not in STALL_TYPES:
                 return False          # (a pipe that does not hand requests on can never answer a self-holding one)
+            if t[2] in STALL_TYPES:
+                nstall += 1
+                if nstall > 1 and not directed_ok:
+                    return False      # (one self-holding pipe per script: genaux intercepts the requests of a tblk)
         if k == "sub":
             kinds[t[1]] = "sub"
         if stall:
@@ -1221,6 +1228,15 @@ def gen_random(rng, info, quick):
         # ... and so is every pipe that does not hand requests on to its output (upipe_audio_split and other
         # pipes whose outputs are sub-pipes): next to a self-holding pipe only the forwarders are used
         chosen = [(t if t in FORWARDERS or t in STALL_TYPES else "idem") for t in chosen]
+        # ... and one self-holding pipe per script: upipe_genaux answers the buffer manager requests of the
+        # pipes in front of it through its own probe (it intercepts them), so a upipe_tblk in front of it waits
+        # for ever when that probe does not answer
+        seen_stall = False
+        for i, t in enumerate(chosen):
+            if t in STALL_TYPES:
+                if seen_stall:
+                    chosen[i] = "idem"
+                seen_stall = True
     for i in range(npipes):
         t = chosen[i]
         n = "p%d" % i
